@@ -16,6 +16,7 @@ inductive Entry where
   | asubj (sj : Subj) (id : Nat)
   | publish (src : Nat) (sj : Subj) (id : Nat) (conns : Nat)   -- conns: cell holding the list of handles
   | refc (sj : Subj) (id : Nat)                                -- ref_count / replay connectable
+  | rawhot (c : Nat) (id : Nat)                                 -- user-written hot source: cell = observers it was given
   | counter (c : Nat)
 deriving Inhabited
 
@@ -25,7 +26,7 @@ def Env.find (env : Env) (name : String) : Option Entry := (env.find? (·.1 == n
 
 def Entry.obsvId : Entry → Nat
   | .obsv id => id | .subj _ id => id | .bsubj _ id => id | .rsubj _ id => id | .asubj _ id => id
-  | .publish _ _ id _ => id | .refc _ id => id | .counter c => c
+  | .publish _ _ id _ => id | .refc _ id => id | .counter c => c | .rawhot _ id => id
 
 def Entry.subject? : Entry → Option Subj
   | .subj sj _ => some sj | .bsubj b _ => some b.inner | .rsubj r _ => some r.inner | .asubj sj _ => some sj
@@ -243,6 +244,20 @@ def observe (env : Env) (before : Nat) (w : World) : String :=
 def parseAction (env : Env) : Sexp → Option (Nat → Prog)
   | .atom "unsub" => some fun self => .userUnsub self .done
   | .list [.atom "unsub", s] => s.asNat.map fun s => fun _ => .userUnsub s .done
+  | .list [.atom "rnext", .atom name, v] => do
+      let d ← parseData v
+      match env.find name with
+      | some (.rawhot c _) => some fun _ => .cellRead c false fun l => forEach l.toList fun o => .obsNext o.toInt.toNat d .done
+      | _ => none
+  | .list [.atom "rerror", .atom name, e] => do
+      let e ← e.asNat
+      match env.find name with
+      | some (.rawhot c _) => some fun _ => .cellRead c false fun l => forEach l.toList fun o => .obsError o.toInt.toNat e .done
+      | _ => none
+  | .list [.atom "rcomplete", .atom name] =>
+      match env.find name with
+      | some (.rawhot c _) => some fun _ => .cellRead c false fun l => forEach l.toList fun o => .obsComplete o.toInt.toNat .done
+      | _ => none
   | .list [.atom "hnext", .atom name, v] => do
       let d ← parseData v
       match env.find name with
@@ -307,6 +322,10 @@ def stepProg (env : Env) (w : World) : Sexp → Option (World × Env × Prog)
       let r : RSubj := ⟨sj, it, we, wc⟩
       let (w, id) := w.allocObsv r.observable
       some (w, (name, .rsubj r id) :: env, .done)
+  | .list [.atom "rawhot", .atom name] =>
+      let (w, c) := w.allocCell .lnil
+      let (w, id) := w.allocObsv fun s => .cellRead c false fun l => .cellWrite c false (Data.ofList (l.toList ++ [.int s])) .done
+      some (w, (name, .rawhot c id) :: env, .done)
   | .list [.atom "counter", .atom name] =>
       let (w, c) := w.allocCell (.int 0)
       some (w, (name, .counter c) :: env, .done)
@@ -364,6 +383,9 @@ def stepProg (env : Env) (w : World) : Sexp → Option (World × Env × Prog)
   | s@(.list (.atom "hnext" :: _)) => (parseAction env s).map fun a => (w, env, a 0)
   | s@(.list (.atom "hcomplete" :: _)) => (parseAction env s).map fun a => (w, env, a 0)
   | s@(.list (.atom "herror" :: _)) => (parseAction env s).map fun a => (w, env, a 0)
+  | s@(.list (.atom "rnext" :: _)) => (parseAction env s).map fun a => (w, env, a 0)
+  | s@(.list (.atom "rerror" :: _)) => (parseAction env s).map fun a => (w, env, a 0)
+  | s@(.list (.atom "rcomplete" :: _)) => (parseAction env s).map fun a => (w, env, a 0)
   | _ => none
 
 def runSteps (rs : RunState) : List Sexp → RunState
